@@ -127,6 +127,18 @@ pub fn explore(ctx: &Ctx) {
             sites.push(Site::new(lat, lon, [0.0, 8848.0, -420.0][(i + j) % 3], gmt));
         }
     }
+    // far-from-natural zone offsets: the rise/set (or both) then falls on the far side of local midnight
+    // all year round, which is where the day-fraction wrap of the algorithm is exercised
+    let far: Vec<(f64, f64)> = if quick { vec![(0.0, 6.0), (0.0, -9.0), (120.0, -3.5), (-120.0, 3.5), (30.0, -9.5)] } else { vec![(0.0, 6.0), (0.0, -6.0), (0.0, 9.0), (0.0, -9.0), (0.0, 11.5), (0.0, -12.0), (120.0, -3.5), (-120.0, 3.5), (30.0, -9.5), (-45.0, 9.0)] };
+    for (k, &(lon, gmt)) in far.iter().enumerate() {
+        for (i, &lat) in [0.0, 23.44, -23.44, 40.0, -40.0, 60.0, -60.0].iter().enumerate() {
+            if quick && (i + k) % 2 != 0 {
+                continue;
+            }
+            sites.push(Site::new(lat, lon, 0.0, gmt));
+        }
+    }
+    ctx.alphabet("far_zone_sites_lon_gmt", json!(far));
     ctx.alphabet("sites", json!({"count": sites.len(), "lats": lats, "zones": zs.len()}));
     ctx.alphabet("dates_main", json!({"range": "1600-01-01..2399-12-31", "count": all.len(), "method": "Mwl, policy None"}));
     let pa = params_conv(Method::Mwl);
